@@ -282,7 +282,7 @@ def run_job(job, workdir, keep=False, extra_defs=(), trace_property=None):
     if not r.obligations:
         r.reason = 'no obligations generated'
         return r
-    unwind_fail = [o for o in r.obligations if '.unwind.' in o['name'] and o['status'] != 'SUCCESS'
+    unwind_fail = [o for o in r.obligations if '.unwind.' in o['name'] and o['status'] == 'FAILURE'
                    and 'recursion' not in o['name']]
     if unwind_fail and not job.bounded_is_obligation():
         r.reason = 'unwinding assertion failed (bound too small): ' + unwind_fail[0]['name']
